@@ -201,6 +201,27 @@ def drive(ctx, mon, tier, only_case=None):
     L = ctx.L
 
     def body(rng, ex, case):
+        if case == 0:
+            import itertools
+            alphabet = [ESC, '[', '1', ';', 'm', 'H', 'a']
+            depth = 5 if tier == 'thorough' else 4
+            nsh = ctx.extra.get('nshards', 1)
+            k = 0
+            n_in = 0
+            with mon.quiet():
+                for d in range(0, depth + 1):
+                    for combo in itertools.product(alphabet, repeat=d):
+                        k += 1
+                        if k % nsh != ctx.shard:
+                            continue
+                        n_in += 1
+                        s = ''.join(combo)
+                        for allow in (True, False):
+                            for acc in (None, 'm', 'mHJ'):
+                                check_string(ctx, L, s, allow, acc)
+            ctx.extra['n_small_scope_inputs'] = n_in
+            ctx.extra['small_scope'] = 'exhaustive over strings of length 0..%d over %r x 6 flag combinations' % (depth, alphabet)
+            return
         with mon.quiet():
             for _ in range(6):
                 s = gen_string(rng)
